@@ -117,6 +117,30 @@ Example C25_nonvacuous_request :
   request_ok (mkREQ [] [(0, 3)] [(1, 3)] 0 0) = false.
 Proof. vm_compute. repeat split; reflexivity. Qed.
 
+(* Third round: acceptance of the certificate with extents also gives that every fracture
+   grid spans, on every axis, exactly the extent of the fracture it discretises (for
+   structured grids: the requested fracture snapped to the nearest grid planes, computed
+   exactly by the harness), within 1e-9. *)
+Theorem C25_certificate_extents_sound :
+  forall d r ext, conform_req2 d r ext = true ->
+  Conforming d /\ RequestConf r /\ ExtentsConf ext.
+Proof. exact conform_req2_sound. Qed.
+Print Assumptions C25_certificate_extents_sound.
+
+Example C25_nonvacuous_extents :
+  qsum_r [1 # 3; 1 # 6; 1 # 2] = 1 /\
+  extents_ok [([(29 # 100, 29 # 100); (0, 1)], [(29 # 100, 29 # 100); (0, 1)])] = true /\
+  extents_ok [([(28 # 100, 28 # 100); (0, 1)], [(29 # 100, 29 # 100); (0, 1)])] = false.
+Proof. vm_compute. repeat split; reflexivity. Qed.
+
+(* The certificate the tie evaluates ([conform_req3]: sums normalised after every addition,
+   for speed) is the same boolean as [conform_req2], hence sound in the same sense. *)
+Theorem C25_certificate_fast_sound :
+  forall d r ext, conform_req3 d r ext = true ->
+  Conforming d /\ RequestConf r /\ ExtentsConf ext.
+Proof. exact conform_req3_sound. Qed.
+Print Assumptions C25_certificate_fast_sound.
+
 (* Non-vacuity: a host of two cells [0,1], [1,2] with faces at 0, 1, 2; the lower cell 0
    sits on face 1.  The split gives face 3 = copy of 1 attached to the left cell 0, face 1
    keeps the right cell 1, frac_pairs (1,3), face-cell map {(0,1),(0,3)}; and a matching
